@@ -37,6 +37,7 @@ type Timer struct {
 	real    *time.Timer
 	stopped bool
 	fired   bool
+	armed   bool // an environment thread that will deliver a firing exists
 }
 
 //go:norace
@@ -56,16 +57,25 @@ func NewTimer(d Duration) *Timer {
 	}
 	t := &Timer{c: make(chan Time, 1)}
 	t.C = t.c
+	t.arm()
+	return t
+}
+
+// arm starts the environment thread that delivers one firing.
+//
+//go:norace
+func (t *Timer) arm() {
+	t.armed = true
 	id := chanID(t.c)
 	vrt.GoDaemon("timer", func() {
 		vrt.PointOp(&vrt.Op{Kind: "timer.fire", Obj: id, Write: true, Ready: t.active})
 		t.fired = true
+		t.armed = false
 		select {
 		case t.c <- Time{}:
 		default:
 		}
 	})
-	return t
 }
 
 //go:norace
@@ -81,12 +91,23 @@ func (t *Timer) Stop() bool {
 	return was
 }
 
+// Reset re-arms the timer (untimed: it may fire again at any later point). As with the real
+// timer, a value left in C by an earlier firing stays there.
+//
 //go:norace
 func (t *Timer) Reset(d Duration) bool {
 	if t.real != nil {
 		return t.real.Reset(d)
 	}
-	panic("vtime: Timer.Reset is not modelled")
+	if vrt.Running() {
+		vrt.PointOp(&vrt.Op{Kind: "timer.Reset", Obj: chanID(t.c), Write: true})
+	}
+	was := t.active()
+	t.stopped, t.fired = false, false
+	if !t.armed {
+		t.arm()
+	}
+	return was
 }
 
 func After(d Duration) <-chan Time { return NewTimer(d).C }
